@@ -182,6 +182,10 @@ func accountMenu(w *world.World, o menuOpts) []world.Action {
 		acts = append(acts, uni.Call(c, c, vmcommon.BuiltInFunctionSaveKeyValue, []byte("k"), []byte("v")))
 		acts = append(acts, uni.Call(c, uni.B0, vmcommon.BuiltInFunctionSaveKeyValue, []byte("k"), []byte("w")))
 		acts = append(acts, uni.Call(c, c, vmcommon.BuiltInFunctionSaveKeyValue, []byte(spec.TokPrefix+tF), []byte{8, 1}))
+		// protocol keys in the last pair of calls with two and three pairs
+		acts = append(acts, uni.Call(c, c, vmcommon.BuiltInFunctionSaveKeyValue, []byte("j"), []byte("1"), []byte(spec.TokPrefix+tF), []byte{0xff, 0xff}))
+		acts = append(acts, uni.Call(c, c, vmcommon.BuiltInFunctionSaveKeyValue, []byte("j"), []byte("1"), []byte("i"), []byte("2"), []byte(spec.RolePrefix+tS), []byte{0xff}))
+		acts = append(acts, uni.Call(c, c, vmcommon.BuiltInFunctionSaveKeyValue, []byte("j"), []byte("1"), []byte(spec.NoncePrefix+tS), []byte{}))
 	}
 	return acts
 }
